@@ -20,9 +20,21 @@ NOT_APPLICABLE = {
 
 # claimed by DESIGN.md but whose check is not built yet (kept out of `checks` until it runs clean end to end)
 PENDING = {p: "in scope for deterministic simulation (DESIGN.md §5) but the check is not built yet in this revision; not claimed"
-           for p in ["C07", "C11", "C12", "C13", "C14", "C19"]}
+           for p in ["C07", "C11", "C12", "C13", "C14"]}
 
 PROPS = {
+    "C19": {
+        "level": "exploration",
+        "level_text": "seeded exploration of operation sequences through Model and through the ElectricApi/MemorySettingsApi server, first by one caller with per-call postconditions, then by 2-4 concurrent callers that are parked inside the underlying resource operations while holding the model mutex; the documented invariants at every quiescent point, start-time stamping against the injected clock, streams folded against Modes()/ActiveMode()",
+        "level_note": TRUST + "; set-active is documented not to stamp and is not required to; start times are checked against the injected clock's window of the call",
+        "technique": "deterministic simulation (seeded scheduler, gates on the model mutex and hooks inside the underlying resources) + invariant and postcondition oracles",
+        "rule": RULE_SCHED,
+        "scenarios": [
+            {"name": "elec", "quick": 40000, "thorough": 3000000, "thorough_time": 300},
+        ],
+        "require_hits": ["electric.mu", "resource.gau.commit", "collection.delete.commit"],
+        "assumptions": ["server methods are called directly on ModelServer (the gRPC transport is C13's subject)"],
+    },
     "C17": {
         "level": "exploration",
         "level_text": "members are simulator tasks, so the completion order is the schedule; seeded exploration over strategies x member counts x outcomes x completion orders x cancellation-aware/waiting members, with the finite space (strategy x n<=4 x outcomes x orders) measured and, in the thorough tier, required to be covered completely; contract, cancellation, panic and goroutine-leak oracles",
